@@ -6,6 +6,7 @@ Require Import LV.Base LV.VV LV.VVFacts LV.Path LV.PathSpec LV.Prog LV.Objects L
 Theorem C09_send_publishes :
   forall (e : exec) (me h : nat) (v : N) (s : chan_state) (e' : exec),
        get_chan e h = Some s ->
+       ho_rx (get_h e h) = true ->
        exec_micro e me (MSendPost h v) = MOk e' ->
        exists s' : chan_state,
          get_chan e' h = Some s' /\
